@@ -268,6 +268,8 @@ def run(ck):
                       "the fixed-size fields; distinct = distinct op lines")
     ops = build_ops(ck, bins["h"])
     ck.cov["exhaustive"] = True
+    ck.partial = ("parseHeader_encode is proved for the empty tagged-field section standard clients write; headers with non-empty "
+                  "tag sections are covered by parseHeader_total/body_suffix and the differential run; request bodies are kmsg's codec")
     ok = check_stream(ck, bins["h"], ops, "main")
     if not ok and not ck.violations:
         # hunt: fresh generated streams, monitor only
